@@ -92,6 +92,7 @@ def install_recorders(rec, clock, who=None):
             issuer["wire"] = []
             entry = {"client": issuer["client"], "task": issuer["task"], "ordinal": issuer["ordinal"], "vt_begin": clock.now, "wire": issuer["wire"], "run": issuer.get("run")}
             rec.logical.append(entry)
+        token = simes.LOGICAL.set(entry)
         try:
             res = await orig_execute_single(rnr, es, params, on_error)
             if entry is not None:
@@ -103,6 +104,11 @@ def install_recorders(rec, clock, who=None):
                 entry["vt_finish"] = clock.now
                 entry["raised"] = type(e).__name__
             raise
+        finally:
+            try:
+                simes.LOGICAL.reset(token)
+            except ValueError:  # closed by the garbage collector in another context
+                pass
 
     driver.execute_single = execute_single
     undo.append(lambda: setattr(driver, "execute_single", orig_execute_single))
